@@ -273,11 +273,29 @@ class FaultPlan:
         n = self.count.get(key, 0)
         self.count[key] = n + 1
         f = self.by_key.get((S.cur_op, seam, n))
+        if f is not None and f.get("_done"):
+            f = None
         if f is not None:
+            f["_done"] = True
             S.fired.append({"kind": f["kind"], "seam": seam, "op": S.cur_op, "nth": n,
                             "path": canon(path)})
             ev("fault", f["kind"], seam, S.cur_op, n, canon(path))
         return f
+
+
+def late_races(plan, world, upto_op):
+    """environment operations scheduled as a race inside an operation that the handler never
+    reached (it made fewer disk calls): they land right after that operation instead"""
+    n = 0
+    for key in sorted(plan.by_key):
+        f = plan.by_key[key]
+        if f["kind"] == "race" and not f.get("_done") and f["op"] <= upto_op:
+            f["_done"] = True
+            for envop in f["env"]:
+                world.apply(envop)
+            ev("fault", "race-late", f["seam"], f["op"], f["nth"])
+            n += 1
+    return n
 
 
 _orig = {}
